@@ -1,5 +1,7 @@
 """C08 - float text I/O is lossless and base/precision changes are faithfully rounded."""
+import math
 import os
+from math import gcd
 import sys
 
 import core
@@ -25,6 +27,13 @@ try:
     CONV_GEN4_STATUS = translate_c08_r4.generate(core.REPO, os.path.join(core.COQ, "gen"))
 except Exception as _ex:
     CONV_GEN4_STATUS = "unparsed generator-failed: %s" % str(_ex)[:200]
+# round 5: the retry loop of the repaired ln/exp route (work precision with extra digits, padding of the interval ends,
+# next number of extra digits, window of the exact fallback) -> coq/gen/ConvBaseGen5.v (theorems C08_gen5_*)
+try:
+    import translate_c08_r5
+    CONV_GEN5_STATUS = translate_c08_r5.generate(core.REPO, os.path.join(core.COQ, "gen"))
+except Exception as _ex:
+    CONV_GEN5_STATUS = "unparsed generator-failed: %s" % str(_ex)[:200]
 
 # a run against a scratch checkout (VERIF_REPO) must not leave its formulas in the tree for other builds
 if os.path.realpath(core.REPO) != os.path.realpath("/repo"):
@@ -39,6 +48,10 @@ if os.path.realpath(core.REPO) != os.path.realpath("/repo"):
             translate_c08_r4.generate("/repo", os.path.join(core.COQ, "gen"))
         except Exception:
             pass
+        try:
+            translate_c08_r5.generate("/repo", os.path.join(core.COQ, "gen"))
+        except Exception:
+            pass
 
     atexit.register(_restore_conv_gen)
 
@@ -46,9 +59,11 @@ if os.path.realpath(core.REPO) != os.path.realpath("/repo"):
 def extra_phase(tier, seed, exes, oracle):
     word = CONV_GEN_STATUS.split(" ", 1)[0]
     word4 = CONV_GEN4_STATUS.split(" ", 1)[0]
+    word5 = CONV_GEN5_STATUS.split(" ", 1)[0]
     return {
         "evaluations": 0,
-        "hist": {"translator_c08:ConvBaseGen:" + word: 1, "translator_c08:ConvBaseGen4:" + word4: 1},
+        "hist": {"translator_c08:ConvBaseGen:" + word: 1, "translator_c08:ConvBaseGen4:" + word4: 1,
+                 "translator_c08:ConvBaseGen5:" + word5: 1},
         "nontrivial": [],
         "samples": [{"fragment": "coq/gen/ConvBaseGen.v (tools/translate_c08_r3.py from float/src/convert.rs)",
                      "status": CONV_GEN_STATUS,
@@ -58,6 +73,10 @@ def extra_phase(tier, seed, exes, oracle):
                      "status": CONV_GEN4_STATUS,
                      "tied_by": "C08_gen4_* (Float/ConvBaseGen4Proof.v): generated rounding prefixes / format table / marker table / "
                                 "common_root loop body / common-root branch = the hand-written models" if word4 == "ok"
+                     else "correspondence run only (source not parsed; last good copy marked STALE)"},
+                    {"fragment": "coq/gen/ConvBaseGen5.v (tools/translate_c08_r5.py from float/src/convert.rs)",
+                     "status": CONV_GEN5_STATUS,
+                     "tied_by": "C08_gen5_* (Float/LargeExpAsis5Proof.v) and the as-is model Float/LargeExpAsis5.v (retry loop of the ln/exp route)" if word5 == "ok"
                      else "correspondence run only (source not parsed; last good copy marked STALE)"}],
         "failures": [],
     }
@@ -126,7 +145,7 @@ for _b, _l in sorted(CONV_PAIRS.items()):
     for _nb in _l:
         PAIRS_BY_CLASS.setdefault(pair_class(_b, _nb), []).append((_b, _nb))
 
-LEVEL_TEXT = ("Coq theorems for all inputs (90 pinned): (1) the as-is model of the float parser (Repr::from_str_native transcribed on byte lists: sign, rfind of "
+LEVEL_TEXT = ("Coq theorems for all inputs (107 pinned): (1) the as-is model of the float parser (Repr::from_str_native transcribed on byte lists: sign, rfind of "
               "the scale marker, isize scale, point, hexadecimal form, digit counting, final normalisation; UBig::from_str_radix at its C07 "
               "specification) returns exactly the written value and the number of written digits on every text the documented grammar accepts "
               "(parse_spec = the grammar read left to right), and accepts nothing else: parse_asis = Ok v <-> parse_spec = Some v for every byte string and every base 2..36; "
@@ -156,19 +175,27 @@ LEVEL_TEXT = ("Coq theorems for all inputs (90 pinned): (1) the as-is model of t
               "fmt_round_scientific with the marker and the hexadecimal switch - print the specified WHOLE text: positional forms = the LowerExp text with the marker of the format, hexadecimal form of "
               "a binary float = significand spec_round-ed to 4p+4 bits, carry undone by four bits (C08_hex_rounded_spec, C08_radix_body_hex), padding with the 0x prefix after the sign "
               "(C08_radix_format_text_asis_spec); (12) regenerated on every run and proved equal to what the models use (C08_gen4_*): the rounding prefixes of fmt_round and fmt_round_scientific, the "
-              "table of impl_fmt_with_base!, the scale-marker table of the parser, the loop body of common_root, the common-root branch of convert_base.")
-LEVEL_NOTE = ("Partial: the ln/exp route of convert_base (|e| > 38, since round 4 only between bases WITHOUT a common root, and with guard digits: F10, F11 fixed) stays an OPEN finding (one rounding of an approximant: wrong when the value is "
-              "representable or a tie or within ~2^-20 NB^(1-2p) of one - in practice representable values at large precisions in the directed modes); its accuracy theorem is "
-              "conditional on a k-ulp contract of ln / ln_base / exp (C11: certified per case, not proved universally). Its answers are decided case by case by the contract checker against the exact "
-              "rational; a failing answer is a known finding only if it is bit for bit what the as-is model of the route predicts (model evaluated on every case: fidelity 100 %; time budget 3 s, else the "
-              "bound of C08_convert_large_route_error_wp decides). On every other route the verdict is strict since round 4: the answer must be convert_base_spec (one rounding of the exact value; fits the target precision). "
+              "table of impl_fmt_with_base!, the scale-marker table of the parser, the loop body of common_root, the common-root branch of convert_base; "
+              "(13) round 5, the ln/exp route after the repair of F05 (Float/LargeExpAsis5.v: retry loop over the guard digits; both ends A (1 -+ NB^-pad), pad = 2p + extra - 1, of the error interval of the "
+              "approximant are rounded and the route returns only when they agree, flag included; otherwise convert_base_exact inside the window |e| / 128 <= max(bit_len s, (p+1) bit_len NB) + 1, another pass "
+              "with doubled guard digits outside): convert_base_exact = convert_base_spec for EVERY exponent (C08_convert_exact_asis_spec; the small-exponent branch is this function, "
+              "C08_convert_base_small_is_exact); every float the loop returns is the specification of the value (fallback) or the common rounding of both ends of a pass, each end being the specification of that end "
+              "(C08_convert_large_loop_returns, C08_large_end_is_spec, C08_large_pass_retry); the stability test is SOUND: spec_round is monotone in the numerator for every mode (floor + bump form, C08_spec_round_floor_form, "
+              "C08_spec_round_mono), the specification of a base change is constant between two values on which it agrees with an Inexact flag - also across a power of the base, where the flags of the two ends differ "
+              "(C08_convert_value_spec_between) - hence both ends rounding to the same float with the same Inexact flag implies that EVERY value between them has exactly that float and flag as its specification "
+              "(C08_large_ends_agree_correct); the ends enclose every value within NB^-pad |A| of the approximant A (C08_ends_enclose; abstract form C08_monotone_stable_between); the formulas of the loop are regenerated (C08_gen5_*).")
+LEVEL_NOTE = ("Since round 5 the ln/exp route of convert_base (|e| > 38 between bases WITHOUT a common root) is repaired (F05 fixed: stability test of the rounding over the error interval of the approximant, "
+              "exact fallback, retry with doubled guard digits) and the verdict is STRICT on every route: the answer must be convert_base_spec (one rounding of the exact value). What stays conditional: that the "
+              "approximant of a pass errs by at most NB^(1-2p-extra) of its magnitude follows from C08_convert_large_route_error_guarded only under the k-ulp contract of ln / ln_base / exp (k <= 512; C11: certified "
+              "per case, observed <= 4, not proved universally) - the step from 'both ends round alike' to 'the value is rounded like them' is proved (C08_large_ends_agree_correct); termination of the loop outside the window (the value is then no (p+1)-digit float: prime-factor argument "
+              "in the finding F05) is argued, not proved in Coq. The as-is model of the whole loop is evaluated on every route case (asis=same|diff; time budget, else only the strict verdict). "
               "The division step itself (div_round_once = correctly rounded quotient) is C06's theorem div_round_once_correct, cited; TextIoModel.convert_base_asis / C08_convert_small_neg describe the code "
               "BEFORE 344196e and are kept because other properties cite them (C08_convert4_agrees: same answers wherever the code did not change). Compared, not proved: "
               "the power-of-two branch of from_parts_const; Debug output (exact text of Float/DebugSpec.v, IBig's Debug at its C07 specification); the f32 operations inside the C11 models (instantiated in "
               "the oracle with IEEE single arithmetic, log2 = double log2 rounded); soundness of the two log2 bounds with_base divides is C12's contract (decided on every case with C12's bracket test). Trusted: "
               "Coq kernel, translators (round_low_part bodies; tools/translate_c08_r3.py: THRESHOLD_SMALL_EXP, work precision of the ln/exp route, with_base's formula, precision rules of TryFrom<f32/f64> and "
-              "FromStr; tools/translate_c08_r4.py: straight-line statement compiler for the fmt rounding prefixes, common_root, the common-root branch, and the two tables), extraction + FastZ.v, zarith, harness; UBig::from_str_radix / in_radix / IBig Debug at their C07 specifications; IBig arithmetic is Z (C01/C02).")
-TECHNIQUE = "Coq proof (as-is models of parser, printer incl. padding and the radix-specific formats, with_precision, every convert_base route (= one specification of the value on every route without logarithm), with_base precision, IEEE import, from_parts_const = specification or proved contract; print->parse round trip; regenerated fragments incl. rounding bodies of fmt.rs) + extracted specification, as-is models and contract checker on a correspondence run"
+              "FromStr; tools/translate_c08_r4.py: straight-line statement compiler for the fmt rounding prefixes, common_root, the common-root branch, and the two tables; tools/translate_c08_r5.py: formulas and shape of the retry loop of the ln/exp route), extraction + FastZ.v, zarith, harness; UBig::from_str_radix / in_radix / IBig Debug at their C07 specifications; IBig arithmetic is Z (C01/C02).")
+TECHNIQUE = "Coq proof (as-is models of parser, printer incl. padding and the radix-specific formats, with_precision, every convert_base route (= one specification of the value on every route without logarithm; the repaired ln/exp route returns the specification or the common rounding of both ends of its error interval), with_base precision, IEEE import, from_parts_const = specification or proved contract; print->parse round trip; regenerated fragments incl. rounding bodies of fmt.rs) + extracted specification, as-is models and contract checker on a correspondence run"
 RULE = ("cases = API (FromStr / from_str_native for FBig and Repr; Display, LowerExp, UpperExp, Debug for FBig and Repr with flags + 0 < > ^ "
         "x width x precision option; Binary / Octal / LowerHex / UpperHex of FBig and Repr in the bases 2, 8, 16 (positional and hexadecimal form) with a precision shorter than the significand in every mode: "
         "dropped parts zero / below / at / above one half, all-maximal digits (carry); integer-valued floats in the top slice NewB^p' <= |x| < B^p of their precision, both directions between 2, 3, 10, 36 ...; "
@@ -184,16 +211,15 @@ RULE = ("cases = API (FromStr / from_str_native for FBig and Repr; Display, Lowe
         "subnormals, extremes of each class, infinities, NaNs, random. non-trivial = the text was accepted / a rounding or a "
         "conversion was performed / the oracle evaluated the specification on a finite value; distinct = distinct case texts.")
 EXPLANATION = ("Verdicts: parse_spec (grammar read left to right) for texts; display_spec / sci_spec = pad_spec around display_body_spec / sci_body_spec (layout + spec_round + padding) for "
-               "printed texts, compared as whole texts; radix_spec (Float/RadixFmtModel.v) for {:b} {:o} {:x} {:X}; Float/DebugSpec.v for Debug; with_precision_spec; for base changes on every route without logarithm "
-               "(same base, power-related bases, |exponent| <= 38, bases with a common root) the answer must be exactly convert_base_spec (the correctly rounded p-digit float of the exact value, normal form, truthful flag); "
-               "on the ln/exp route Contract.check_contract against the exact rational s*B^e "
-               "(error < 1 ulp of the target precision, <= 1/2 for nearest modes, side, truthful flag, exact if representable, at "
-               "most p+1 digits) together with the precision rule (maximal or one less; sound bounds by C12's bracket test); from_parts_const_spec; ieee_decode for f32/f64. "
-               "known:convert_base_large_exp_not_faithful only for the ln/exp route (bases without a common root, |exponent| > 38, limited precision) when the contract fails AND the answer is "
-               "exactly the one the as-is model of the route predicts (a different failing answer is a violation).")
+               "printed texts, compared as whole texts; radix_spec (Float/RadixFmtModel.v) for {:b} {:o} {:x} {:X}; Float/DebugSpec.v for Debug; with_precision_spec; for base changes on EVERY route "
+               "(same base, power-related bases, |exponent| <= 38, bases with a common root, and since the repair of F05 in round 5 the ln/exp route) the answer must be exactly convert_base_spec (the correctly rounded "
+               "p-digit float of the exact value s*B^e, normal form, truthful flag), together with the precision rule of with_base (maximal or one less; sound bounds by C12's bracket test); "
+               "from_parts_const_spec; ieee_decode for f32/f64. The as-is model of the whole retry loop of the ln/exp route (Float/LargeExpAsis5.v on the C11 as-is models of ln / exp) is evaluated on every route case "
+               "(asis=same|diff; paths large-window / large-far = inside / outside the window of the exact fallback). No known-finding tag is left in this check.")
 TRUSTED_BASE = [
     "Coq 8.16.1 kernel",
     "tools/translate_c08_r4.py compiles the rounding prefixes of Repr::fmt_round / fmt_round_scientific, the loop body of utils::common_root and the common-root branch of convert_base (straight-line Rust -> Gallina) and reads the tables of impl_fmt_with_base! and of the scale markers (status in the evidence; theorems C08_gen4_*)",
+    "tools/translate_c08_r5.py reads the retry loop of the ln/exp route of convert_base (work precision with extra digits, padding of the interval ends, next number of extra digits, window of the exact fallback; shape of the rest checked by patterns) - status in the evidence; theorems C08_gen5_*",
     "tools/translate.py renders the six round_low_part bodies of float/src/round.rs faithfully; tools/translate_c08_r3.py renders THRESHOLD_SMALL_EXP, the work precision of the ln/exp route, with_base's formula and the precision rules of TryFrom<f32/f64> / FromStr (float/src/convert.rs, parse.rs) - status in the evidence; tools/translate_c11_r3.py the guard-digit formulas the C11 models read",
     "extraction: ExtrOcamlBasic + ExtrOcamlZBigInt + coq/extract/FastZ.v directives; zarith 1.12; oracle/driver_c08.ml (f32 operations of the C11 models = IEEE single arithmetic via OCaml doubles, log2 = double log2 rounded to single)",
     "harness/src/bin/c08.rs and hlib (floats moved through raw words; texts as hex bytes)",
@@ -446,6 +472,74 @@ def gen_conv(rng, tier, b):
     return "%s %x %s %s %s %x" % (op, b, mode, hx(s), hx(e), p0)
 
 
+def gen_conv_jump(rng, tier):
+    """round 5 (repaired ln/exp route: |e| > 38 between bases without a common root): values ON or NEXT TO a jump of the
+    rounding function of the target precision - a float of p digits or the middle between two of them.
+    kind 0: the value IS such a number (exponent inside the window of the exact fallback): p = its digit count -1/0/+1/+2;
+    kind 1: the value is within 2^-bits of such a number but is none, exponent far outside the window
+            (|e| > 128 * bits): the stability test fails in the first pass(es) and the route retries with doubled guard digits;
+    kind 2: small precisions at huge exponents (window vs far at the threshold |e| / 128 = bits -1/0/+1)."""
+    b, nb = rng.choice(PAIRS_BY_CLASS["other"])
+    mode = rng.choice(MODES)
+    kind = rng.below(3)
+    sign = rng.choice([1, -1])
+    if kind == 0:
+        e = rng.choice([39, 40, 41, 45, 50, 64, 77, 100, 150, -39, -40, -41, -45, -50, -64, -77, -100])
+        j = gen_sig(rng, b, rng.choice([1, 1, 2, 3, 5]))
+        if e >= 0:
+            sv, num, den = j, j * b ** e, 1
+        else:
+            D = b ** (-e)
+            g = D
+            while True:                      # the part of D coprime to nb
+                c = gcd(g, nb)
+                if c == 1:
+                    break
+                while g % c == 0:
+                    g //= c
+            sv = j * g                       # value j / (D / g), and D / g divides a power of nb
+            if ndigits(sv, b) > 400:
+                return gen_conv_jump(rng, tier)
+            num, den = j, D // g
+        k = 0
+        while num % den:
+            num *= nb
+            k += 1
+            if k > 4000:
+                return gen_conv_jump(rng, tier)
+        m = num // den
+        while m % nb == 0:
+            m //= nb
+        d = ndigits(m, nb)
+        pt = max(1, d + rng.choice([-2, -1, -1, 0, 0, 0, 1, 2]))
+        if pt > 600:
+            return gen_conv_jump(rng, tier)
+        return "with_base_prec %x %s %x %s %s %x %x" % (b, mode, nb, hx(sign * sv), hx(e), 0 if rng.chance(1, 2) else ndigits(sv, b), pt)
+    lb, lnb = b.bit_length(), nb.bit_length()
+    if kind == 1:
+        pt = rng.choice([1, 1, 2, 3, 4, 6, 9, 17])
+        bits = rng.choice([3 * pt * lnb, 4 * pt * lnb + 20, 6 * pt * lnb + 40, 120, 200 if tier == "thorough" else 90])
+        e = rng.choice([1, -1]) * (128 * (max(bits, (pt + 1) * lnb) + 3) + rng.below(2000))
+        m = gen_sig(rng, nb, pt)
+        tie = rng.chance(1, 3)
+        jn = 2 * m + 1 if tie else 2 * m            # jump point jn / 2 * nb^q
+        # q such that jn / 2 * nb^q / b^e has about `bits` bits
+        q = int(round((e * math.log2(b) + bits - math.log2(jn / 2)) / math.log2(nb)))
+        num = jn * (nb ** q if q >= 0 else 1) * (b ** (-e) if e < 0 else 1)
+        den = 2 * (nb ** (-q) if q < 0 else 1) * (b ** e if e >= 0 else 1)
+        sv = num // den + rng.choice([0, 0, 1, 1, -1, 2])
+        if sv <= 0 or sv * den == num:
+            sv += 1
+        return "with_base_prec %x %s %x %s %s %x %x" % (b, mode, nb, hx(sign * sv), hx(e), 0, pt)
+    pt = rng.choice([1, 2, 3, 5])
+    sv = gen_sig(rng, b, rng.choice([1, 2, 4, 9]))
+    bits = max(sv.bit_length(), (pt + 1) * lnb) + 1
+    e = rng.choice([1, -1]) * (128 * (bits + rng.choice([-1, 0, 0, 1, 1, 2])) + rng.choice([0, 1, 64, 127]))
+    if abs(e) <= 38:
+        e = 39
+    return "with_base_prec %x %s %x %s %s %x %x" % (b, mode, nb, hx(sign * sv), hx(e), 0, pt)
+
+
 def gen_conv_int_top(rng, tier):
     """integer-valued floats in the top slice of their precision, NewB^p' <= |x| < B^p (p' the target precision with_base
     chooses: NewB^p' <= B^p < NewB^(p'+1)): they fit the SOURCE precision but not the target one and have to be rounded
@@ -659,8 +753,10 @@ def gen_cases(rng, tier, n):
             c = gen_print(rng, tier, b)
         elif k < 68:
             c = gen_misc(rng, tier, b)
-        elif k < 84:
+        elif k < 82:
             c = gen_conv(rng, tier, b)
+        elif k < 84:
+            c = gen_conv_jump(rng, tier)
         elif k < 87:
             c = gen_conv_int_top(rng, tier)
         elif k < 90:
